@@ -113,6 +113,37 @@ def saves_of(view, item_suffix):
     return out
 
 
+def _fields_read_by(model, validator_rx):
+    """First-level fields of `self` (parameter 1) read by the validator function(s) matching validator_rx."""
+    rx = re.compile(validator_rx)
+    out = set()
+    for p in model.fnsrc:
+        if not rx.search(p):
+            continue
+        v = model.view(p)
+
+        def visit(op):
+            if isinstance(op, dict) and op.get("k") in ("copy", "move"):
+                pl = op["pl"]
+                if pl["l"] == 1 or 1 in v.alias_roots(pl["l"]):
+                    F = v._named_fields(pl["p"])
+                    if F and not F[0].startswith("[") and not F[0].isdigit():
+                        out.add(F[0])
+        for b, i, s_ in v.iter_stmts():
+            rv = s_["rv"]
+            for k in ("op", "a", "b"):
+                if k in rv:
+                    visit(rv[k])
+            if "pl" in rv:
+                visit({"k": "copy", "pl": rv["pl"]})
+            for o in rv.get("ops", []):
+                visit(o)
+        for b, t in v.iter_calls():
+            for a in t["args"]:
+                visit(a)
+    return out
+
+
 def validated_store(ctx, rule, view, item_suffix, field, validator_rx, label, arg_proj=()):
     """Every new source of CONFIG.<field> must be unable to reach the save without crossing the Continue
     edge of `validator(value)?` where value shares provenance with the source."""
@@ -124,6 +155,20 @@ def validated_store(ctx, rule, view, item_suffix, field, validator_rx, label, ar
     for sb, t in saves:
         srcs = field_sources(view, t["args"][2], field, view.at_term(sb))
         news = [s for s in srcs if s.kind not in ("load",)]
+        # a struct validated as a whole but stored field by field: every field the validator reads must be assigned,
+        # otherwise the stored combination (new fields + a stale one) is something the validator never saw
+        parts = [s for s in news if s.kind == "partial"]
+        if parts:
+            prefix = ".".join(field) + "."
+            assigned = set()
+            for s in parts:
+                m = re.search(re.escape(prefix) + r"(\w+)", s.detail or repr(s))
+                if m:
+                    assigned.add(m.group(1))
+            read = _fields_read_by(view.model, validator_rx)
+            missing = sorted(read - assigned) if read else ["<validator body not available>"]
+            ctx.ob(rule, "%s|%s|%s|stored-as-validated" % (view.path, ".".join(field), label), not missing,
+                   "fields assigned one by one: %s; fields the validator reads: %s; never assigned: %s" % (sorted(assigned), sorted(read), missing), view.where(parts[0].block))
         for s in srcs:
             if s.kind == "load" and item_suffix.split("::")[-1] not in (s.detail or ""):
                 news.append(s)
